@@ -1,27 +1,45 @@
-//! C02 obligations: indexing into values - `get`, `get_nested`, `extract`,
-//! `extract_nested`: an out-of-range index, absent key or kind mismatch at any
-//! step yields no value; otherwise exactly the addressed element.
+//! C02 obligations, kernel K3: indexing into values through the real
+//! `LhsValue::{get, extract, get_nested, extract_nested}`: an out-of-range
+//! index, an absent key or a missing step yields NO value; otherwise exactly the
+//! addressed element.  Direct calls (no context, no compiled closure).
+//! Pre-states are built with `array_owned` / `array_borrowed` (trap 2).
 use super::super::*;
+use crate::lhs_types::verif_kani::common::{array_borrowed, array_owned};
 
-fn int_array<const N: usize>(xs: &[i64; N]) -> Array<'static> {
+fn ints<const N: usize>(xs: &[i64; N]) -> Vec<LhsValue<'static>> {
     let mut v = Vec::with_capacity(N);
     let mut i = 0;
     while i < N {
         v.push(LhsValue::Int(xs[i]));
         i += 1;
     }
-    Array::try_from_vec(Type::Int, v).unwrap()
+    v
 }
 
-/// [n] on an array of N ints, every u32 index (incl. N, u32::MAX): owned and
-/// borrowed representation, by reference (`get`) and by value (`extract`).
-fn array_index<const N: usize>() {
+fn want_at<const N: usize>(xs: &[i64; N], idx: u32) -> Option<i64> {
+    if (idx as usize) < N { Some(xs[idx as usize]) } else { None }
+}
+
+fn covers<const N: usize>(idx: u32) {
+    kani::cover!(idx as usize == N, "index == len");
+    kani::cover!(idx == u32::MAX, "u32::MAX");
+    kani::cover!((idx as usize) < N, "index in range");
+}
+
+/// `value[n]` by reference on an array of N ints, every u32 index (incl. N,
+/// u32::MAX), owned or borrowed representation; `get` and the one-step
+/// `get_nested` agree.
+fn get_index<const N: usize, const BORROWED: bool>() {
     let xs: [i64; N] = kani::any();
-    let arr = LhsValue::Array(int_array(&xs));
+    let vals: [LhsValue<'static>; N] = std::array::from_fn(|i| LhsValue::Int(xs[i]));
+    let arr = if BORROWED {
+        LhsValue::Array(array_borrowed(Type::Int, &vals[..]))
+    } else {
+        LhsValue::Array(array_owned(Type::Int, ints(&xs)))
+    };
     let idx: u32 = kani::any();
+    let want = want_at(&xs, idx);
     let fi = FieldIndex::ArrayIndex(idx);
-    let want = if (idx as usize) < N { Some(xs[idx as usize]) } else { None };
-    // by reference
     match arr.get(&fi) {
         Ok(Some(LhsValue::Int(v))) => {
             assert!(want == Some(*v), "[n] yields exactly element n");
@@ -29,148 +47,235 @@ fn array_index<const N: usize>() {
         Ok(None) => {
             assert!(want.is_none(), "an in-range index yields a value");
         }
-        _ => {
+        Ok(Some(_)) => {
+            assert!(false, "the element keeps its kind");
+        }
+        Err(e) => {
+            std::mem::forget(e);
             assert!(false, "indexing an array with an integer is well-typed");
         }
     }
-    // nested API with a one-step path
     let path = [FieldIndex::ArrayIndex(idx)];
     match arr.get_nested(&path) {
         Some(LhsValue::Int(v)) => {
-            assert!(want == Some(*v));
+            assert!(want == Some(*v), "[n] yields exactly element n");
         }
         None => {
-            assert!(want.is_none(), "an out-of-range index yields no value");
+            assert!(want.is_none(), "an out-of-range index yields no value, an in-range one a value");
         }
-        _ => {
+        Some(_) => {
             assert!(false);
         }
     }
-    // by value, borrowed representation
-    match arr.as_ref().extract(&fi) {
-        Ok(Some(LhsValue::Int(v))) => {
-            assert!(want == Some(v));
+    covers::<N>(idx);
+    std::mem::forget(arr);
+    std::mem::forget(vals);
+}
+
+/// `value[n]` by value (`extract` / one-step `extract_nested`).
+fn extract_index<const N: usize, const BORROWED: bool, const NESTED: bool>() {
+    let xs: [i64; N] = kani::any();
+    let vals: [LhsValue<'static>; N] = std::array::from_fn(|i| LhsValue::Int(xs[i]));
+    let arr = if BORROWED {
+        LhsValue::Array(array_borrowed(Type::Int, &vals[..]))
+    } else {
+        LhsValue::Array(array_owned(Type::Int, ints(&xs)))
+    };
+    let idx: u32 = kani::any();
+    let want = want_at(&xs, idx);
+    let got = if NESTED {
+        let path = [FieldIndex::ArrayIndex(idx)];
+        arr.extract_nested(&path)
+    } else {
+        let fi = FieldIndex::ArrayIndex(idx);
+        match arr.extract(&fi) {
+            Ok(g) => g,
+            Err(e) => {
+                std::mem::forget(e);
+                assert!(false, "indexing an array with an integer is well-typed");
+                None
+            }
         }
-        Ok(None) => {
-            assert!(want.is_none());
-        }
-        _ => {
-            assert!(false);
-        }
-    }
-    kani::cover!(idx as usize == N, "index == len");
-    kani::cover!(idx == u32::MAX);
-    kani::cover!(N > 0 && idx as usize == N - 1, "last element");
-    // by value, owned representation
-    match arr.extract_nested(&path) {
+    };
+    match &got {
         Some(LhsValue::Int(v)) => {
-            assert!(want == Some(v));
+            assert!(want == Some(*v), "[n] yields exactly element n; out of range: no value");
         }
         None => {
-            assert!(want.is_none());
+            assert!(want.is_none(), "an in-range index yields a value");
         }
-        _ => {
-            assert!(false);
+        Some(_) => {
+            assert!(false, "the element keeps its kind");
         }
     }
-    std::mem::forget(fi);
-    std::mem::forget(path);
+    std::mem::forget(got);
+    covers::<N>(idx);
+    std::mem::forget(vals);
 }
 
-#[kani::proof]
-#[kani::unwind(4)]
-fn array_index__exact_element_n0() {
-    array_index::<0>()
+macro_rules! proof {
+    ($name:ident, $unwind:literal, $body:expr) => {
+        #[kani::proof]
+        #[kani::unwind($unwind)]
+        fn $name() {
+            $body
+        }
+    };
 }
 
-#[kani::proof]
-#[kani::unwind(5)]
-fn array_index__exact_element_n2() {
-    array_index::<2>()
-}
+proof!(lhs_get_index__owned_n0, 3, get_index::<0, false>());
+proof!(lhs_get_index__owned_n2, 5, get_index::<2, false>());
+proof!(lhs_get_index__borrowed_n2, 5, get_index::<2, true>());
+proof!(lhs_get_index__owned_n3, 6, get_index::<3, false>());
+proof!(lhs_extract_index__owned_n0, 3, extract_index::<0, false, false>());
+proof!(lhs_extract_index__owned_n2, 5, extract_index::<2, false, false>());
+proof!(lhs_extract_index__borrowed_n2, 5, extract_index::<2, true, false>());
+proof!(lhs_extract_nested1__owned_n2, 5, extract_index::<2, false, true>());
+proof!(lhs_extract_nested1__borrowed_n2, 5, extract_index::<2, true, true>());
 
-#[kani::proof]
-#[kani::unwind(6)]
-fn array_index__exact_element_n3() {
-    array_index::<3>()
-}
-
-/// Kind mismatches: integer index on a non-array, key on a non-map, [*] on
+/// Kind mismatches: an integer index on a non-array, a key on a non-map, [*] on
 /// anything: an IndexAccessError, never a value.
 #[kani::proof]
 #[kani::unwind(4)]
 fn index_kind_mismatch__is_an_error() {
-    let xs: [i64; 1] = kani::any();
-    let arr = LhsValue::Array(int_array(&xs));
+    let x: i64 = kani::any();
+    let arr = LhsValue::Array(array_owned(Type::Int, ints(&[x])));
     let int = LhsValue::Int(kani::any());
     let key = FieldIndex::MapKey(String::from("k"));
     let idx = FieldIndex::ArrayIndex(kani::any());
+    let each = FieldIndex::MapEach;
     let r = arr.get(&key);
     assert!(r.is_err(), "a key on an array is an index access error");
     std::mem::forget(r);
     let r = int.get(&idx);
     assert!(r.is_err(), "an index on a scalar is an index access error");
     std::mem::forget(r);
-    let r = arr.get(&FieldIndex::MapEach);
+    let r = int.get(&key);
+    assert!(r.is_err(), "a key on a scalar is an index access error");
+    std::mem::forget(r);
+    let r = arr.get(&each);
     assert!(r.is_err(), "[*] is not a single-element access");
     std::mem::forget(r);
     let r = arr.as_ref().extract(&key);
     assert!(r.is_err());
     std::mem::forget(r);
-    let r = arr.as_ref().extract(&FieldIndex::MapEach);
+    let r = arr.as_ref().extract(&each);
     assert!(r.is_err());
     std::mem::forget(r);
-    std::mem::forget((arr, key, idx));
+    let r = LhsValue::Int(x).extract(&idx);
+    assert!(r.is_err());
+    std::mem::forget(r);
+    std::mem::forget((arr, key, idx, each));
 }
 
-/// [i][j] on a ragged array of arrays {[a, b], [c]}: the path semantics is the
-/// step-by-step one and stops with "no value" at the first missing step.
-#[kani::proof]
-#[kani::unwind(5)]
-fn nested_path__stepwise_and_missing_is_none() {
-    let a: i64 = kani::any();
-    let b: i64 = kani::any();
-    let c: i64 = kani::any();
-    let inner0 = LhsValue::Array(int_array(&[a, b]));
-    let inner1 = LhsValue::Array(int_array(&[c]));
-    let outer = LhsValue::Array(
-        Array::try_from_vec(Type::Array(Type::Int.into()), vec![inner0, inner1]).unwrap(),
-    );
-    let i: u32 = kani::any();
-    let j: u32 = kani::any();
-    let want = match (i, j) {
+fn ragged(a: i64, b: i64, c: i64) -> LhsValue<'static> {
+    let inner0 = LhsValue::Array(array_owned(Type::Int, ints(&[a, b])));
+    let inner1 = LhsValue::Array(array_owned(Type::Int, ints(&[c])));
+    let mut rows = Vec::with_capacity(2);
+    rows.push(inner0);
+    rows.push(inner1);
+    LhsValue::Array(array_owned(Type::Array(Type::Int.into()), rows))
+}
+
+fn ragged_want(a: i64, b: i64, c: i64, i: u32, j: u32) -> Option<i64> {
+    match (i, j) {
         (0, 0) => Some(a),
         (0, 1) => Some(b),
         (1, 0) => Some(c),
         _ => None,
-    };
+    }
+}
+
+/// `[i][j]` by reference on the ragged array of arrays {[a, b], [c]}, all u32
+/// i, j: the step-by-step meaning; no value at the first missing step.
+#[kani::proof]
+#[kani::unwind(5)]
+fn get_nested__ragged_stepwise_missing_is_none() {
+    let (a, b, c): (i64, i64, i64) = kani::any();
+    let outer = ragged(a, b, c);
+    let i: u32 = kani::any();
+    let j: u32 = kani::any();
+    let want = ragged_want(a, b, c, i, j);
     let path = [FieldIndex::ArrayIndex(i), FieldIndex::ArrayIndex(j)];
     match outer.get_nested(&path) {
         Some(LhsValue::Int(v)) => {
             assert!(want == Some(*v), "[i][j] is element j of element i");
         }
         None => {
-            assert!(want.is_none(), "a missing step yields no value");
+            assert!(want.is_none(), "a present element is found");
         }
-        _ => {
-            assert!(false);
-        }
-    }
-    match outer.as_ref().extract_nested(&path) {
-        Some(LhsValue::Int(v)) => {
-            assert!(want == Some(v));
-        }
-        None => {
-            assert!(want.is_none());
-        }
-        _ => {
+        Some(_) => {
             assert!(false);
         }
     }
     // the empty path is the value itself
     assert!(matches!(outer.get_nested(&[]), Some(LhsValue::Array(_))));
+    // a one-step path yields the row
+    let row = [FieldIndex::ArrayIndex(i)];
+    match outer.get_nested(&row) {
+        Some(LhsValue::Array(r)) => {
+            assert!((i == 0 && r.len() == 2) || (i == 1 && r.len() == 1));
+        }
+        None => {
+            assert!(i >= 2);
+        }
+        Some(_) => {
+            assert!(false);
+        }
+    }
     kani::cover!(i == 1 && j == 1, "ragged: second row is shorter");
-    kani::cover!(i == 2, "outer index out of range");
-    std::mem::forget(path);
+    kani::cover!(i == 2, "outer index == len");
+    kani::cover!(i == 0 && j == u32::MAX);
     std::mem::forget(outer);
+}
+
+/// `[i][j]` by value (`extract_nested`) on the same ragged value, owned
+/// representation (function results) and borrowed (`as_ref()` of a field value).
+fn extract_nested_ragged<const BORROWED: bool>() {
+    let (a, b, c): (i64, i64, i64) = kani::any();
+    let outer = ragged(a, b, c);
+    let i: u32 = kani::any();
+    let j: u32 = kani::any();
+    let want = ragged_want(a, b, c, i, j);
+    let path = [FieldIndex::ArrayIndex(i), FieldIndex::ArrayIndex(j)];
+    let got = if BORROWED {
+        outer.as_ref().extract_nested(&path)
+    } else {
+        ragged(a, b, c).extract_nested(&path)
+    };
+    match &got {
+        Some(LhsValue::Int(v)) => {
+            assert!(want == Some(*v), "[i][j] is element j of element i; missing step: no value");
+        }
+        None => {
+            assert!(want.is_none(), "a present element is found");
+        }
+        Some(_) => {
+            assert!(false);
+        }
+    }
+    std::mem::forget(got);
+    kani::cover!(i == 1 && j == 1, "ragged: second row is shorter");
+    kani::cover!(i == 2, "outer index == len");
+    kani::cover!(i == 1 && j == 0);
+    std::mem::forget(outer);
+}
+
+proof!(extract_nested__ragged_borrowed, 5, extract_nested_ragged::<true>());
+proof!(extract_nested__ragged_owned, 5, extract_nested_ragged::<false>());
+
+/// A key on an EMPTY map and on an absent row: no value (maps with entries need
+/// BTreeMap insertion, which is out of CBMC's reach - see unverified).
+#[kani::proof]
+#[kani::unwind(4)]
+fn map_key_on_empty_map__no_value() {
+    let m = LhsValue::Map(Map::new(Type::Int));
+    let key = FieldIndex::MapKey(String::from("k"));
+    assert!(matches!(m.get(&key), Ok(None)), "an absent key yields no value");
+    let path = [FieldIndex::MapKey(String::from("k"))];
+    assert!(m.get_nested(&path).is_none());
+    let r = m.as_ref().extract(&key);
+    assert!(matches!(r, Ok(None)));
+    std::mem::forget(r);
+    std::mem::forget((m, key, path));
 }
